@@ -11,3 +11,6 @@
 (declare-fun isHexAttr (String) Bool)                  ; ^#[0-9a-fA-F]+$
 (declare-fun hexdec (String) Bytes)
 (declare-fun isDuration (String) Bool)
+(assert (forall ((s String) (p String)) (! (=> (hasPrefix s p) (>= (str.len s) (str.len p))) :pattern ((hasPrefix s p)))))
+(assert (forall ((s String) (p String)) (! (=> (hasSuffix s p) (>= (str.len s) (str.len p))) :pattern ((hasSuffix s p)))))
+(assert (forall ((s String) (a Int) (b Int)) (! (=> (and (<= 0 a) (<= a b) (<= b (str.len s))) (= (str.len (strSlice s a b)) (- b a))) :pattern ((strSlice s a b)))))
